@@ -67,6 +67,9 @@ func childMain(args []string) int {
 	var armed bool
 	var base int
 	rec.Gate = func(point string, hit int, s *scorch.Scorch) {
+		if wl.LockPauseUS > 0 && (point == "persist.take" || point == "merge.take") {
+			time.Sleep(time.Duration(wl.LockPauseUS) * time.Microsecond)
+		}
 		if armed && crashAt > 0 && hit-base == crashAt {
 			rec.Emit("Crash", map[string]any{"point": point, "at": crashAt})
 			_ = syscall.Kill(os.Getpid(), syscall.SIGKILL)
@@ -383,6 +386,8 @@ func workloads(c *core.Ctx) []sx.Workload {
 	add("safe-1w", 5, 1, true, nil)
 	add("unsafe-2w", 6, 2, false, nil)
 	add("safe-2w-keep3", 5, 2, true, map[string]interface{}{"numSnapshotsToKeep": 3})
+	add("safe-4w-slowtake", 12, 4, true, nil)
+	out[len(out)-1].LockPauseUS = 2500
 	if c.Thorough() {
 		add("unsafe-3workers", 8, 2, false, map[string]interface{}{"scorchPersisterOptions": map[string]interface{}{
 			"NumPersisterWorkers": 3, "MaxSizeInMemoryMergePerWorker": 1}})
@@ -442,6 +447,13 @@ func run(c *core.Ctx) error {
 		nk := c.Pick(4, 40)
 		for i := 0; i < nk; i++ {
 			specs0 = append(specs0, runSpec{WL: wl, KillAfter: time.Duration(20+c.Rand.Intn(400)) * time.Millisecond, Variant: variants[i%len(variants)]})
+		}
+		if wl.LockPauseUS > 0 {
+			// more clean runs of the slow-machine schedule: acknowledgements are judged
+			// against the commits on every recorded run, killed or not
+			for i := 0; i < c.Pick(6, 24); i++ {
+				specs0 = append(specs0, runSpec{WL: wl, Variant: "none"})
+			}
 		}
 		specs = append(specs, specs0...)
 		// the clean run itself is a case (clean Close, then reopen)
